@@ -311,8 +311,18 @@ func (vc *VC) resolveType(env *SpecEnv, name string) types.Type {
 	}
 	// type parameter of the current function's receiver
 	if env.fr != nil {
-		if tp := findTypeParam(env.fr.fn.Signature, id); tp != nil {
-			return tp
+		for f := env.fr.fn; f != nil; f = f.Parent() {
+			if tp := findTypeParam(f.Signature, id); tp != nil {
+				return tp
+			}
+		}
+		// the function under verification (when evaluating inside an inlined helper)
+		if vc.fn != nil {
+			for f := vc.fn; f != nil; f = f.Parent() {
+				if tp := findTypeParam(f.Signature, id); tp != nil {
+					return tp
+				}
+			}
 		}
 	}
 	vc.specErr("unknown type %s", name)
@@ -416,7 +426,9 @@ func (vc *VC) pkgObject(env *SpecEnv, pkg *types.Package, name string) (Val, boo
 	case *types.Var:
 		key := pkg.Path() + "." + name
 		if ce, ok := vc.eng.specs.Consts[key]; ok {
-			v := vc.trExpr(env, ce)
+			cenv := *env
+			cenv.pkg = pkg // the constant expression is written in the global's own package
+			v := vc.trExpr(&cenv, ce)
 			v.Typ = o.Type()
 			return v, true
 		}
